@@ -106,7 +106,7 @@ pub fn check_position(p: &Pos, st: &mut Stats) -> Result<(), Fail> {
 }
 
 pub fn run(run: &mut Run) -> &'static str {
-    let cases = run.tier.pick(300_000, 6_000_000);
+    let cases = run.tier.pick(700_000, 6_000_000);
     run.proptest_part("moves", RULE, pos_case(4..160), cases, |c: &PosCase, st: &mut Stats| {
         let mix = match c {
             PosCase::Tape(t) if t.last().map_or(false, |x| x % 4 == 0) => Mix::General,
@@ -117,5 +117,16 @@ pub fn run(run: &mut Run) -> &'static str {
         }
         Ok(())
     });
+    // thorough: coverage-guided fuzzing of the walk tape (libFuzzer target `positions`: the C16, C18 and
+    // C20 position oracles inside); crashing tapes are judged here by this property's oracle
+    let crashes: Vec<PosCase> = super::fuzzglue::campaign(run, "positions", 250_000, 12, 400).into_iter().map(PosCase::Tape).collect();
+    if !crashes.is_empty() {
+        run.exhaustive_part("fuzz_crashes", RULE, crashes, |c: &PosCase, st: &mut Stats| {
+            for gp in c.positions(Mix::General, 16, st) {
+                check_position(&gp.pos, st)?;
+            }
+            Ok(())
+        });
+    }
     RULE
 }
